@@ -455,7 +455,69 @@ let gen ~seed ~n emit =
         else emit_case emit c e ~unit_bytes ~abbrev:(S_c17.mutate r abbrev) parent
     | _ -> unit_case emit c e ~nulls ~children ~id ?parent attrs)
 
+(* ================================================================== c17.lookup: Dwarf::lookup_offset_id
+   All sections (main and supplementary) are sub-slices of ONE buffer of L bytes, so a ReaderOffsetId is
+   buffer address + k. The model works relative to (buffer address - 1): place = (1 + start, len), id = 1 + k. *)
+let all_sids = [G.SAbbrev; G.SAddr; G.SAranges; G.SInfo; G.SLine; G.SLineStr; G.SMacinfo; G.SMacro; G.SNames; G.SStr;
+                G.SStrOffsets; G.STypes; G.SLoc; G.SLocLists; G.SRanges; G.SRngLists]
+let sid_index (s : G.sid) = let rec go i = function [] -> -1 | x :: t -> if x = s then i else go (i + 1) t in go 0 all_sids
+(* sections whose reader the harness can reach through the public API (all but debug_loc / debug_loclists) *)
+let probe_sids = [0; 1; 2; 3; 4; 5; 6; 7; 8; 9; 10; 11; 14; 15]
+
+let lookup_case emit (l : int) (main : (int * int) array) (sup : (int * int) array option) =
+  let toks a = cat " " (Array.to_list (Array.map (fun (s, n) -> Printf.sprintf "%d %d" s n) a)) in
+  let case = Printf.sprintf "c17.lookup %d %s %d%s" l (toks main) (if sup = None then 0 else 1)
+      (match sup with Some a -> " " ^ toks a | None -> "") in
+  both emit case (fun dbg ->
+    guard (fun () ->
+      let place a (s : G.sid) = let (st, n) = a.(sid_index s) in (n_of_int (1 + st), n_of_int n) in
+      let sp = match sup with Some a -> Some (place a) | None -> None in
+      let show id =
+        rs (function
+            | None -> "-"
+            | Some ((is_sup, s), off) -> Printf.sprintf "%s%d.%s" (if is_sup then "s" else "m") (sid_index s) (sn off))
+          (G.lookup_offset_id dbg (place main) sp (n_of_int id)) in
+      let sweep = List.init (l + 3) (fun i -> show i) in            (* k = -1 .. l+1 *)
+      let probes = List.concat_map (fun i ->
+          let (st, n) = main.(i) in
+          List.map (fun o -> Printf.sprintf "%d.%d=%s" i o (show (1 + st + o))) [0; n / 2; n]) probe_sids in
+      "ok " ^ cat "," sweep ^ " | " ^ cat "," probes))
+
+let gen_lookup ~seed ~n emit =
+  let nsec = 16 in
+  (* tilings: back to back in the coded order and in reverse (every boundary shared by two sections) *)
+  List.iter (fun w ->
+    let l = nsec * w in
+    let fwd = Array.init nsec (fun i -> (i * w, w)) and bwd = Array.init nsec (fun i -> ((nsec - 1 - i) * w, w)) in
+    lookup_case emit l fwd None; lookup_case emit l bwd None;
+    lookup_case emit l fwd (Some bwd); lookup_case emit l bwd (Some fwd);
+    (* main in the lower half, sup in the upper half; and swapped *)
+    let lo = Array.init nsec (fun i -> (i * w, w)) and hi = Array.init nsec (fun i -> (l + i * w, w)) in
+    lookup_case emit (2 * l) lo (Some hi); lookup_case emit (2 * l) hi (Some lo)) [0; 1; 2; 3];
+  (* each section alone in the middle of the buffer, every other section empty at the end of the buffer:
+     for .debug_macinfo / .debug_macro / .debug_names the ids inside are reported as belonging to no section *)
+  for i = 0 to nsec - 1 do
+    let one = Array.init nsec (fun j -> if j = i then (3, 5) else (12, 0)) in
+    let none = Array.make nsec (12, 0) in
+    lookup_case emit 12 one None;
+    lookup_case emit 12 none (Some one);
+    lookup_case emit 12 one (Some one)
+  done;
+  (* all sections identical; nested sections *)
+  lookup_case emit 6 (Array.make nsec (1, 4)) (Some (Array.make nsec (0, 6)));
+  lookup_case emit 20 (Array.init nsec (fun i -> (i / 2, 20 - i))) None;
+  S_c17.for_random ~seed:(seed + 515151) ~n (fun r ->
+    let l = 1 + rand_int r 40 in
+    let mk () = Array.init nsec (fun _ ->
+        let st = rand_int r (l + 1) in
+        let n = match rand_int r 4 with 0 -> 0 | 1 -> l - st | _ -> rand_int r (l - st + 1) in (st, n)) in
+    let main = mk () in
+    let sup = if rand_int r 3 = 0 then None else Some (mk ()) in
+    lookup_case emit l main sup)
+
 let () =
   register "c17.unitglue" ~doc:"Unit::new / new_with_abbreviations, Dwarf::attr_string / attr_line_string / attr_address / unit_ranges, Unit::dwo_name, Dwarf::make_dwo + Unit::copy_relocated_attributes on generated units: versions 2-5 x formats x unit types x {main, dwo} x with/without sup; root attributes in every order of (indexed attribute, base, second base), duplicates, every admissible and inadmissible form (addr/addrx*/GNU_addr_index, string/strp/strx*/line_strp/strp_sup/GNU forms, sec_offset/data4/data8/udata/implicit_const/indirect), boundary offsets and indices, leading null entries, truncated string/offset/address tables and line programs, mutated unit and abbreviation bytes; output = every Unit field, the line program header chosen, dwo_name, attr_string/attr_line_string/attr_address of every root attribute, unit_ranges drained, and for split units the Dwarf after make_dwo"
-    gen
+    gen;
+  register "c17.lookup" ~doc:"Dwarf::lookup_offset_id: all sixteen sections of the main and of the supplementary Dwarf are sub-slices of one buffer; every id from one below the buffer to one past its end, plus ids taken from readers positioned at the start, middle and one-past-the-end of each section; tilings with every boundary shared (coded order and reversed), main/sup overlapping and disjoint, each section alone (confirms that .debug_macinfo, .debug_macro and .debug_names are never searched), identical and nested sections, random layouts"
+    gen_lookup
 let init () = ()
